@@ -12,7 +12,7 @@ var propExplain = map[string]string{
 	"C03": "CheckMnemonic returns nil only on the path where count, membership and checksum conditions hold (clauses F1-F4 cover every return); IsMnemonicValid == (CheckMnemonic == nil); the count corollary is the arithmetic lemma countLemma.",
 	"C04": "single-path postcondition: fresh 64-byte slice equal to pbkdf2(bytesOf(nfkd m), \"mnemonic\" ++ bytesOf(nfkd p), 2048, 64, sha512.New); PBKDF2/HMAC/NFKD implementations are assumptions.",
 	"C05": "the spec decoder applied to the generator's postcondition returns the original bytes (needs list distinctness, discharged by evaluation).",
-	"C06": "NewMnemonic proved against a stream contract for io.ReadFull: enough bytes -> encoding of exactly those bytes and position advanced by 4n/3; otherwise \"\" and a non-nil error. Fragmentation across Read calls lives inside the assumed io.ReadFull contract.",
+	"C06": "NewMnemonic's clauses: enough bytes -> nil error, encoding of exactly those bytes and position advanced by 4n/3; otherwise \"\" and a non-nil error. io.ReadFull and io.ReadAtLeast (standard library source of the toolchain in use) are under contract too and verified with a loop invariant over the delivered prefix, so every fragmentation and every failure point is covered; what is assumed is the stream contract of the source's Read method.",
 	"C07": "the package initialiser is executed symbolically: the source variable holds crypto/rand.Reader; the discipline scan shows no other writer; NewMnemonic's postcondition depends on the stream only and its body calls nothing without a contract.",
 	"C08": "ground obligations over the composite literals of the current tree, all 10 x 2048 entries: length, distinctness, non-empty/UTF-8/no white space, NFKD-stable, byte-equal to the reference lists; Language.list / mapping contracts tie the data to the API.",
 	"C09": "gate postconditions over exact 64-bit integer semantics (all int values incl. negatives and extremes); sentinel values are non-nil and pairwise distinct by execution of the initialiser; rejected counts leave the stream position unchanged.",
@@ -30,7 +30,7 @@ var propAssume = map[string][]string{
 	"C02": {"string axioms: split(join(ws, sep), sep) == ws for separator-free ws; NFKD of a sentence of NFKD-stable words joined by U+0020/U+3000 is the words joined by U+0020 (N3j)"},
 	"C03": {"string lemma FS: if every element of split(s, \" \") is non-empty and free of white space then strings.Fields(s) == split(s, \" \")"},
 	"C04": {"NFKD axiom N2: nfkd(a ++ s) == a ++ nfkd(s) for ASCII a (used to equate nfkd(\"mnemonic\"+p) with \"mnemonic\" ++ nfkd(p))", "PBKDF2-HMAC-SHA512 and NFKD are uninterpreted: that x/crypto and x/text implement their standards is not verified"},
-	"C06": {"the fragmentation clause of the property is carried by the assumed io.ReadFull contract"},
+	"C06": {"the stream contract of a source's Read method (0 <= n <= len(p), never more than the source still delivers, the first n bytes are the next stream bytes, progress or an error, no error while len(p) bytes are still deliverable) is the only assumption about the randomness source"},
 	"C08": {"reference lists: English anchored to the published SHA-256 (2f5eed53...dbda); the other nine are trust-on-first-use from the pinned commit"},
 	"C10": {"whether x/text maps a particular keyboard spelling to the stored word is a fact about x/text (N1-N3j assumed)"},
 	"C12": {"Go memory model; sync.Once contract; goroutine-safety of crypto/rand.Reader and of read-only use of shared *big.Int operands and x/text tables"},
